@@ -150,6 +150,15 @@ def wrapper_part(rep, tier, rng, bad):
         doc_keys = [kv for kv in ms if kv[0] in CONTROL or kv[0] == "BibTeX"]
         ms2 = doc_keys + [kv for kv in ms2 if kv[0] in OTHER]
         ms1 = doc_keys + [kv for kv in ms if kv[0] in OTHER]
+        hasvar = rng.random() < 0.25
+        if hasvar:
+            # metadata values used as variables in the body: a documented channel, so the body may change with them -
+            # but the wrapper switch must still leave it alone (values with a hard line break, reserved characters ...)
+            tv = rng.choice(["Plain title", "First line\\\n    Second line", "A & B <c>", "Ünï \"q\""])
+            ms1 = [kv for kv in ms1 if kv[0] not in ("Title", "Custom Key")] + [("Title", tv), ("Custom Key", rng.choice(["v1", "x\\\n    y"]))]
+            ms2 = ms1
+            b = b + b"\n\nTitle is [%title] and key is [%customkey] and again [%title].\n"
+            bs[bi] = b
         ext = rng.choice(exts)
         for fmt in (FORMATS if tier != "quick" else rng.sample(FORMATS, 2)):
             for name, text, sw in [("S", meta_text(ms1) + b, "snippet"), ("F", meta_text(ms1) + b, "complete"), ("D", meta_text(ms1) + b, ""),
